@@ -41,6 +41,9 @@ def share_bodies(g, si):
     return out
 
 
+from twisted.python.failure import Failure
+
+
 class Scenario:
     def __init__(self, idx, seed, workdir):
         self.idx = idx
@@ -210,6 +213,16 @@ class Scenario:
                 up2._helper = g.uploader._helper
                 d1 = g.uploader.upload(upload.Data(self.data, convergence=self.conv))
                 d2 = up2.upload(upload.Data(self.data, convergence=self.conv))
+
+                def _jend(r, who):
+                    # each client's own result, in the order the results arrive
+                    failed = isinstance(r, Failure)
+                    self.events.append({"ev": "jend", "who": who, "outcome": "failed" if failed else "ok",
+                                        "error": r.type.__name__ if failed else "",
+                                        "capeq": (not failed) and r.get_uri() == self.tcap})
+                    return r
+                d1.addBoth(_jend, "A")
+                d2.addBoth(_jend, "B")
                 res, res2 = g.run(defer.gatherResults([d1, d2], consumeErrors=True))
             else:
                 res = res2 = g.run(g.uploader.upload(upload.Data(self.data, convergence=self.conv)))
@@ -242,6 +255,8 @@ class Scenario:
         mine = share_bodies(g, self.si)
         ev["present"] = sorted(mine)
         ev["shareseq"] = all(bodies == self.ref_shares.get(n_) for n_, bodies in mine.items())
+        if joint:
+            ev["ev"] = "jfinal"
         self.events.append(ev)
 
 
